@@ -16,8 +16,9 @@ value, every document, every third-party filler satisfying `FillContract` (one p
     (C13_flatten_lossless, for types where a pointer-embedded struct has no plain struct field: `ptrEmbedOK`);
 PARTIAL: the four parsers (bytes → document tree → filled struct) are assumed through `FillContract`
 (inhabited: C13_contract_inhabited); arbitrary bytes / syntax errors are outside the model and covered by the
-harness's corruption streams only.  Outside `supported`, the model exhibits three defects of the unchanged
-tree (C13_map_of_struct_counterexample, C13_slice_of_time_counterexample, C13_empty_tag_shadows).
+harness's corruption streams only.  Outside `supported`, the model exhibits two defects of the unchanged
+tree (C13_map_of_struct_counterexample, C13_empty_tag_shadows); a third one (`[]time.Time`, D34) has been repaired
+in /repo and is now a positive theorem (C13_slice_of_time).
 -/
 import DialsModel.Model.DecodeSpec
 import DialsModel.Lemmas.Decode
@@ -27,7 +28,8 @@ open Dials Dials.Decode
 
 /-- The regenerated facts are the ones the theorems below are about: each decoder's mangler chain (constructor
     and arguments in source order), every decoder and the wrapper return an invalid value with the library's
-    error, ParsingDuration takes strings and numbers, the Transformer's notion of struct-ish fields. -/
+    error, ParsingDuration takes strings and numbers, the Transformer's notion of struct-ish fields and its two
+    TextUnmarshaler tests (on the field type and, after stripping pointer / slice / array, on the element type). -/
 theorem C13_facts :
     Facts.missingFacts = [] ∧
     chainOf .json false = [.durSub, .tagCopy "dials" "json"] ∧
@@ -37,8 +39,9 @@ theorem C13_facts :
     chainOf .toml false = [.tagCopy "dials" "toml"] ∧
     (∀ f, checksErr f = true) ∧ Facts.wrapChecksInnerErr = true ∧
     Facts.pdurAcceptsString = true ∧ Facts.pdurAcceptsNumber = true ∧ Facts.setSliceNilStaysNil = true ∧
-    Facts.structishKinds = ["Struct", "Ptr", "Array", "Slice"] := by
-  refine ⟨rfl, ?_, ?_, ?_, ?_, ?_, ?_, rfl, rfl, rfl, rfl, rfl⟩ <;>
+    Facts.structishKinds = ["Struct", "Ptr", "Array", "Slice"] ∧
+    Facts.textSkipBeforeStrip = true ∧ Facts.textSkipAfterStrip = true := by
+  refine ⟨rfl, ?_, ?_, ?_, ?_, ?_, ?_, rfl, rfl, rfl, rfl, rfl, rfl, rfl⟩ <;>
     first | rfl | decide | (intro f; cases f <;> rfl)
 
 /-- Tag precedence on one field: after the decoder's TagCopyingMangler the library's tag holds the format's
@@ -62,15 +65,10 @@ theorem C13_key_path (fmt : Fmt) (wrap : Bool) (T : Ty) (hT : reachTy fmt T = tr
     view fmt.libTag (translate (chainOf fmt false) (translate (wrapChain wrap) T)) = kview fmt wrap T := by
   exact key_path fmt wrap T hT
 
-/-- Without anonymous fields YAML's FlattenAnonymous option changes nothing.
-    REPAIRED STATEMENT (hypothesis `hr` added): as first written (`noAnon T → flatTy T = T`) the statement is false,
-    because the flatten pass, like every Transformer pass, turns a `[]time.Time` field into `[]struct{}`
-    (`T = .slice (.text .time)`, see the `example` below and C13_slice_of_time_counterexample); inside the reach of the
-    Transformer (`reachTy`, which excludes such fields) it holds.  Without `hr` what holds is
-    `flatTy T = passTy Pass.idle T` (Lemmas/Decode.lean: `flat_idle`). -/
-theorem C13_flatten_noop (fmt : Fmt) (T : Ty) (h : noAnon T = true) (hr : reachTy fmt T = true) : flatTy T = T := by
-  rw [flat_idle.1 T h]
-  exact (idle_id fmt).1 T hr
+/-- Without anonymous fields YAML's FlattenAnonymous option changes nothing, for every type (since the repair of
+    finding D34 no hypothesis on `[]time.Time` fields is needed: the flatten pass, like every pass, leaves them alone). -/
+theorem C13_flatten_noop (T : Ty) (h : noAnon T = true) : flatTy T = T := by
+  exact flatten_noop T h
 
 /-- FlattenAnonymous, types: after the YAML decoder's chain with the option set, the library sees, at each struct
     level the Transformer reaches, the keys of an embedded struct's fields (by the same tag rule) in place of the
@@ -114,12 +112,6 @@ example : reachFields .yaml embFields = true ∧ ptrEmbedOK embTy = true ∧
   · exact C13_flatten_lossless embTy (.struct [.nil, .struct [.ptr (.str "w")], .nil]) rfl rfl
   · exact C13_flatten_lossless embTy
       (.struct [.ptr (.struct [.nil, .ptr (.int 3)]), .struct [.nil], .ptr (.str "z")]) rfl rfl
-
-/-- the counterexample to the unrepaired C13_flatten_noop -/
-example : noAnon (.slice (.text .time)) = true ∧ flatTy (.slice (.text .time)) = .slice (.struct .nil) ∧
-    flatTy (.slice (.text .time)) ≠ .slice (.text .time) := by
-  refine ⟨by simp [noAnon], by simp [flatTy, Facts.textSkipBeforeStrip], ?_⟩
-  simp [flatTy, Facts.textSkipBeforeStrip]
 
 /-- The reference filler satisfies the contract (non-vacuity of every theorem that assumes it). -/
 theorem C13_contract_inhabited (E : Ext) (fmt : Fmt) : FillContract E fmt (refFill E fmt) := by
@@ -199,14 +191,19 @@ theorem C13_map_of_struct_counterexample :
   simp [msType, translate, Mangler.ty, passTy, passFields, Pass.tagCopy, view, kview, kvTy, kvFields]
   intro _; decide
 
-/-- `[]time.Time`: the TextUnmarshaler test of maybeRecursivelyMangle looks at the slice type, so the element
-    struct is recursed into and loses its (unexported) fields: every decoder is handed `[]struct{}`. -/
-theorem C13_slice_of_time_counterexample :
-    translate (chainOf .toml false) (.struct (.cons "LT" false [("dials", "lt")] (.slice (.text .time)) .nil))
-      = .struct (.cons "LT" false [("dials", "lt"), ("toml", "lt")] (.slice (.struct .nil)) .nil) := by
-  rw [chain_toml]
-  simp [translate, Mangler.ty, passTy, passFields, Pass.tagCopy, Facts.textSkipBeforeStrip]
-  decide
+/-- `[]time.Time` (finding D34, repaired in /repo): the second TextUnmarshaler test keeps the Transformer out of the
+    element type, so in every format and with or without the wrapper the library is handed the field with its element
+    type intact, keyed by the tag rule; the type is in the domain of all theorems above (`supported`), so every
+    decoder reads the field like any other list of text leaves and the four agree (C13_agree). -/
+theorem C13_slice_of_time (f : Fmt) (wrap : Bool) :
+    supported f wrap sliceTimeTy = true ∧
+    view f.libTag (translate (chainOf f false) (translate (wrapChain wrap) sliceTimeTy))
+      = .struct (.cons "lt" false (.slice (.text .time)) .nil) := by
+  have hr : reachTy f sliceTimeTy = true := by cases f <;> decide
+  refine ⟨?_, ?_⟩
+  · cases f <;> cases wrap <;> decide
+  · rw [C13_key_path f wrap sliceTimeTy hr]
+    cases f <;> cases wrap <;> simp [kview, sliceTimeTy, kvTy, kvFields] <;> decide
 
 /-! ### non-vacuity: the hypotheses of the agreement theorems are satisfiable in all four formats at once -/
 
